@@ -69,6 +69,7 @@ type Interp struct {
 	timers   []*vtimer
 	stubsHit map[string]bool
 	allocTerms []*Term
+	lastThrowAt string
 	prof       map[string]int
 	locks       map[*Value]*lockState
 	condWaiters map[*Value][]*bool
@@ -666,6 +667,9 @@ func (it *Interp) runPath(prefix []decision, model Model) {
 			case *targetPanic:
 				end = "panic"
 				endMsg = it.panicString(r.v)
+				if it.lastThrowAt != "" {
+					endMsg += " (runtime panic raised in " + it.lastThrowAt + ")"
+				}
 			default:
 				end = "internal"
 				endMsg = fmt.Sprintf("%v\n%s", r, debug.Stack())
